@@ -30,7 +30,23 @@ MODES = {
     "asan": ("nightly", "dev", GUARD + " -Zsanitizer=address -Cforce-frame-pointers=yes", ["--target", TARGET]),
     "tsan": ("nightly", "dev", GUARD + " -Zsanitizer=thread", ["-Zbuild-std", "--target", TARGET]),
     "miri": ("nightly", "dev", GUARD, []),
+    # the race detectors once more with debug assertions compiled out (what a release build of a dependent crate runs):
+    # an Acquire load that only a debug_assert! performs must not be what orders anything
+    "tsanrel": ("nightly", "dev", GUARD + " -Zsanitizer=thread", ["-Zbuild-std", "--target", TARGET]),
+    "mirirel": ("nightly", "dev", GUARD, []),
 }
+NODEBUG = ("tsanrel", "mirirel")
+
+
+def fam(mode):
+    """mode family: tsanrel -> tsan, mirirel -> miri"""
+    return mode[:-3] if mode in NODEBUG else mode
+
+
+def mode_env(mode, env):
+    if mode in NODEBUG:
+        env["CARGO_PROFILE_DEV_DEBUG_ASSERTIONS"] = "false"
+    return env
 
 MIRI_BASE = "-Zmiri-permissive-provenance -Zmiri-address-reuse-cross-thread-rate=0 -Zmiri-disable-isolation"
 
@@ -70,12 +86,12 @@ def _build(mode, bin):
     tc, profile, flags, extra = MODES[mode]
     os.makedirs(BUILD, exist_ok=True)
     os.makedirs(LOGS, exist_ok=True)
-    env = base_env()
+    env = mode_env(mode, base_env())
     env["RUSTFLAGS"] = flags
     cmd = ["cargo"]
     if tc:
         cmd.append("+" + tc)
-    if mode == "miri":
+    if fam(mode) == "miri":
         # build (and cache) by running a no-op engine once
         cmd += ["miri", "run", "--bin", bin, "--target-dir", os.path.join(BUILD, mode), "--", "noop"]
         env["MIRIFLAGS"] = MIRI_BASE
@@ -147,9 +163,9 @@ class Job:
         self.valgrind_args = valgrind_args or []
 
     def command(self):
-        env = base_env()
+        env = mode_env(self.mode, base_env())
         env.update(self.env)
-        if self.mode == "miri":
+        if fam(self.mode) == "miri":
             flags = MIRI_BASE
             if self.miri_seed is not None:
                 flags += " -Zmiri-seed=%d" % self.miri_seed
@@ -158,8 +174,8 @@ class Job:
             if self.miri_extra:
                 flags += " " + self.miri_extra
             env["MIRIFLAGS"] = flags
-            env["RUSTFLAGS"] = MODES["miri"][2]
-            cmd = ["cargo", "+nightly", "miri", "run", "-q", "--bin", self.bin, "--target-dir", os.path.join(BUILD, "miri"), "--"] + self.args
+            env["RUSTFLAGS"] = MODES[self.mode][2]
+            cmd = ["cargo", "+nightly", "miri", "run", "-q", "--bin", self.bin, "--target-dir", os.path.join(BUILD, self.mode), "--"] + self.args
             return cmd, env, HARNESS
         if self.mode == "memcheck":
             leak = ["--leak-check=full", "--errors-for-leak-kinds=definite,indirect"]
@@ -170,7 +186,7 @@ class Job:
         if self.mode == "asan":
             env.setdefault("ASAN_OPTIONS", "detect_leaks=1:halt_on_error=1:abort_on_error=0:exitcode=98:detect_stack_use_after_return=0")
             env.setdefault("LSAN_OPTIONS", "exitcode=97")
-        if self.mode == "tsan":
+        if fam(self.mode) == "tsan":
             env.setdefault("TSAN_OPTIONS", "halt_on_error=1:exitcode=66:second_deadlock_stack=1")
         return [bin_path(self.mode, self.bin)] + self.args, env, HARNESS
 
@@ -353,8 +369,8 @@ def run_check(prop, tier, seed, plan):
     advisory = []
     for r in results:
         for v in list(r.viols):
-            if v.get("aliasing") and r.job.mode == "miri":
-                other = Job("miri", r.job.args, label=r.job.label + " [other aliasing model]", san_props=r.job.san_props,
+            if v.get("aliasing") and fam(r.job.mode) == "miri":
+                other = Job(r.job.mode, r.job.args, label=r.job.label + " [other aliasing model]", san_props=r.job.san_props,
                             timeout=r.job.timeout, miri_seed=r.job.miri_seed, tb=not r.job.tb, miri_extra=r.job.miri_extra, bin=r.job.bin)
                 r2 = run_job(other)
                 if any(x.get("source") == "sanitizer" for x in r2.viols):
